@@ -338,6 +338,36 @@ def addChunk (l : List ((Nat × Nat) × Nat × Nat)) (key : Nat × Nat) (off : N
 
 def setByte (d : Bytes) (i : Nat) (v : UInt8) : Bytes := if i < d.length then d.set i v else d
 
+/-- the dict key under which a chunk is collected and the chunk's offset inside that key's source -/
+def chunkKey (s : State) (c : Nat) : (Nat × Nat) × Nat :=
+  ((if (classify s c).1 == secRaw then (secRaw, c) else ((classify s c).1, 0)), c - (classify s c).2)
+
+/-- the planning loop of `do_thing`: `to_read[region] = [offset, 0]` on first sight, `+= 0x200` for every chunk -/
+def plan (s : State) (alOffset nChunks : Nat) : List ((Nat × Nat) × Nat × Nat) :=
+  ((List.range nChunks).map fun i => alOffset + 0x200 * i).foldl (fun acc c => addChunk acc (chunkKey s c).1 (chunkKey s c).2) []
+
+/-- one piece of the second loop: read, fix the crypto flags of the header, trim the first and the last piece -/
+def pieceBytes (before cutEnd : Nat) (lastKey : Option (Nat × Nat)) (isStart : Bool) (key : Nat × Nat) (d : Bytes) : Bytes :=
+  let d := if key.1 == secHeader then setByte (setByte d 0x18B 0) 0x18F 4 else d
+  let d := if isStart then d.drop before else d
+  if some key == lastKey && cutEnd != 0x200 then pySlice d 0 (-(cutEnd : Int)) else d
+
+def assembleStep (gd : Nat → Nat → Int → Except Err Bytes) (before cutEnd : Nat) (lastKey : Option (Nat × Nat))
+    (acc : Except Err (List Bytes × Bool)) (item : (Nat × Nat) × Nat × Nat) : Except Err (List Bytes × Bool) :=
+  match acc with
+  | .error e => .error e
+  | .ok (out, isStart) =>
+    match gd item.1.1 item.2.1 item.2.2 with
+    | .error e => .error e
+    | .ok d => .ok (out ++ [pieceBytes before cutEnd lastKey isStart item.1 d], false)
+
+/-- the assembly of an aligned plan; `gd` = `get_data` of the sections -/
+def assemble (gd : Nat → Nat → Int → Except Err Bytes) (before cutEnd : Nat) (lastKey : Option (Nat × Nat))
+    (toRead : List ((Nat × Nat) × Nat × Nat)) : Except Err Bytes :=
+  match toRead.foldl (assembleStep gd before cutEnd lastKey) (.ok ([], true)) with
+  | .error e => .error e
+  | .ok (out, _) => .ok out.flatten
+
 /-- `get_data(FullDecrypted, offset, size)` -/
 def fullRead (E : Bytes → Bytes → Bytes) (s : State) (file : Bytes) (start : Nat) (offset : Nat) (size : Int) :
     Except Err Bytes :=
@@ -354,31 +384,11 @@ def fullRead (E : Bytes → Bytes → Bytes) (s : State) (file : Bytes) (start :
     let alSize : Int := size + before
     -- end = al_offset + ceil(al_size / 0x200) * 0x200
     let nChunks : Nat := if alSize ≤ 0 then 0 else (alSize.toNat + 0x1FF) / 0x200
-    let chunks := (List.range nChunks).map fun i => alOffset + 0x200 * i
-    let toRead := chunks.foldl (fun acc c =>
-      let (sec, cur) := classify s c
-      let key := if sec == secRaw then (secRaw, c) else (sec, 0)
-      addChunk acc key (c - cur)) []
-    let lastKey : Option (Nat × Nat) := chunks.getLast?.map fun c =>
-      let (sec, _) := classify s c
-      if sec == secRaw then (secRaw, c) else (sec, 0)
+    let lastKey : Option (Nat × Nat) :=
+      (((List.range nChunks).map fun i => alOffset + 0x200 * i).getLast?).map fun c => (chunkKey s c).1
     -- cut_end = 0x200 - ((size + before) % 0x200)   (Python modulo: non-negative)
     let cutEnd : Nat := 0x200 - (alSize % 0x200).toNat
-    let pieces := toRead.foldl (fun (acc : Except Err (List Bytes × Bool)) (item : (Nat × Nat) × Nat × Nat) =>
-      match acc with
-      | .error e => .error e
-      | .ok (out, isStart) =>
-        let (key, off, sz) := item
-        match getData E s file start key.1 off sz with
-        | .error e => .error e
-        | .ok d =>
-          let d := if key.1 == secHeader then setByte (setByte d 0x18B 0) 0x18F 4 else d
-          let d := if isStart then d.drop before else d
-          let d := if some key == lastKey && cutEnd != 0x200 then pySlice d 0 (-(cutEnd : Int)) else d
-          .ok (out ++ [d], false)) (.ok ([], true))
-    match pieces with
-    | .error e => .error e
-    | .ok (out, _) => .ok out.flatten
+    assemble (getData E s file start) before cutEnd lastKey (plan s alOffset nChunks)
 
 end Ncch
 end Pyctr
